@@ -1195,7 +1195,9 @@ func (ldns) Gen(rng *rand.Rand, tier string) []Case {
 		}
 	}
 	// ---- name decompression: pointer targets and loops
-	hdr := func(qd, an int) []byte { return []byte{0, 1, 0x81, 0x80, byte(qd >> 8), byte(qd), byte(an >> 8), byte(an), 0, 0, 0, 0} }
+	hdr := func(qd, an int) []byte {
+		return []byte{0, 1, 0x81, 0x80, byte(qd >> 8), byte(qd), byte(an >> 8), byte(an), 0, 0, 0, 0}
+	}
 	qtail := []byte{0, 1, 0, 1}
 	{
 		// pointer to itself, to the header, to the end, one before the end, beyond the end, forward
